@@ -392,6 +392,7 @@ func (c *Ctx) ord4() {
 	flush := c.acc("ORD-4", rs, "peekPacket-only-with-pendingAck-flushed")
 	save := c.acc("ORD-4", rs, "PUBREC-flush⇒marker-Save=nil-before-write")
 	trunc := c.acc("ORD-4", rs, "truncate-only-after-nil-write")
+	onlyRec := c.acc("ORD-4", rs, "marker-Save-only-when-the-pending-packet-is-PUBREC")
 	loopPub := c.acc("ORD-4", rs, "loop-continues-after-onPUBLISH-only-on-errDupe")
 	for _, p := range c.Paths("ORD-4", rs) {
 		// first peekPacket call on the path
@@ -446,6 +447,27 @@ func (c *Ctx) ord4() {
 				continue
 			}
 			trunc.pass()
+		}
+		// the marker is saved for a PUBREC only
+		for i := range p.Events {
+			if persistenceOp(&p.Events[i]) != "Save" {
+				continue
+			}
+			okRec := false
+			for _, cm := range assumed(p, 0, i) {
+				if cm.Op == token.EQL && isK(cm.Y, pt["typePUBREC"]) {
+					if sh, ok := strip(cm.X).(*ssa.BinOp); ok && sh.Op == token.SHR {
+						if ix := indexBase(sh.X); ix != nil && roleKey(ix) == "Client.pendingAck" {
+							okRec = true
+						}
+					}
+				}
+			}
+			if okRec {
+				onlyRec.pass()
+			} else {
+				onlyRec.fail(p, i, "a reception marker is saved on a path that has not established that the pending packet is a PUBREC: a retried PUBCOMP would re-create the marker its PUBREL just ended, and the next message with that identifier is suppressed as a duplicate")
+			}
 		}
 		// PUBREC flush
 		isRec := false
@@ -511,6 +533,7 @@ func (c *Ctx) ord4() {
 	flush.done(1, "every entry path reaches peekPacket with pendingAck empty or flushed (write=nil, then truncated)")
 	save.done(1, "marker Save returned nil before every PUBREC flush")
 	trunc.done(1, "pendingAck is truncated only behind a nil write")
+	onlyRec.done(1, "every marker Save is control dependent on pendingAck[0]>>4 == typePUBREC")
 	loopPub.done(1, "continuing after onPUBLISH requires errDupe")
 
 	// --- onPUBREL ---
